@@ -576,6 +576,17 @@ fn simplify_repairs<
         }
         false
     };
+    //   3) by their content (kind of repair, then token index / position of the lexeme), so that the
+    //      order of equally ranked sequences -- and with it the repair that is applied -- is a
+    //      function of the grammar and the input alone: it must depend neither on a hasher nor on
+    //      the width of `StorageT`.
+    let content_key = |r: &ParseRepair<LexerTypesT::LexemeT, StorageT>| -> (u8, usize) {
+        match r {
+            ParseRepair::Insert(tidx) => (0, usize::from(*tidx)),
+            ParseRepair::Delete(l) => (1, l.span().start()),
+            ParseRepair::Shift(l) => (2, l.span().start()),
+        }
+    };
     all_rprs.sort_unstable_by(|x, y| {
         let x_cai = contains_avoid_insert(x);
         let y_cai = contains_avoid_insert(y);
@@ -584,7 +595,9 @@ fn simplify_repairs<
         } else if !x_cai && y_cai {
             Ordering::Less
         } else {
-            x.len().cmp(&y.len())
+            x.len()
+                .cmp(&y.len())
+                .then_with(|| x.iter().map(content_key).cmp(y.iter().map(content_key)))
         }
     });
 }
